@@ -1,5 +1,6 @@
 import Fundraising.Model.Block
 import Fundraising.Model.Genesis
+import Fundraising.Model.ModuleInv
 /-
   The operations of the system as one step function: delivered messages (at the
   transaction boundary), keeper-API calls by other modules, blocks, genesis
